@@ -251,7 +251,9 @@ func genFilter(t *rapid.T, u *universe) (filterSpec, bool) {
 		MutateInPlace:          pct(t, "in-place", 40),
 		AllowImported:          pct(t, "allow-imported", 40),
 	}
-	mode := rapid.IntRange(0, 99).Draw(t, "mode") // 0-39 exclude-only, 40-64 include-only, 65-99 mixed
+	// rapid's integer generators favour small values; the order below gives roughly 35/30/35 after
+	// includes that would be a documented error have been dropped
+	mode := []int{70, 50, 0, 70, 50}[rapid.IntRange(0, 4).Draw(t, "mode")] // <40 exclude-only, 40-64 include-only, >=65 mixed
 	n := rapid.IntRange(1, 5).Draw(t, "names")
 	allowConflict := pct(t, "allow-conflict", 4)
 	inc, exc := map[string]bool{}, map[string]bool{}
